@@ -186,7 +186,7 @@ def _mask(ex, x, d):
 
 
 @scenario('C15', 'grad_api', ['torchtt.grad.watch', 'torchtt.grad.unwatch', 'torchtt.grad.grad', 'torchtt.grad.grad_list', 'torchtt.grad.watch_list'],
-          quick=[dict(case=c) for c in ('watch_all', 'watch_some', 'unwatch', 'grad_all', 'grad_indices', 'grad_indices_permuted', 'grad_list_flat', 'grad_list_nested', 'watch_list', 'grad_twice', 'grad_list_twice')],
+          quick=[dict(case=c) for c in ('watch_all', 'watch_some', 'unwatch', 'grad_all', 'grad_indices', 'grad_indices_permuted', 'grad_list_flat', 'grad_list_nested', 'watch_list', 'grad_twice', 'grad_list_twice', 'grad_of_constant', 'grad_list_of_constant')],
           replay='grad_api')
 def grad_api(ob, case):
     """watch/unwatch toggle requires_grad of the selected cores and nothing else; grad / grad_list return the .grad of the cores, in the
@@ -222,6 +222,24 @@ def grad_api(ob, case):
     for c in cores:
         c.requires_grad = True
     val_ = ex.call(ex.getattr(x, 'sum'), [])
+    if case in ('grad_of_constant', 'grad_list_of_constant'):
+        # a value built from TT operations that does not depend on the cores (x * 0 is the detached zero tensor): the dense derivative is
+        # zero, so grad returns zero tensors with the shapes of the cores (and does not raise)
+        zero = ex.binop('Mult', x, 0)
+        v0 = ex.call(ex.getattr(zero, 'sum'), [])
+        g = ex.call(G['grad'], [v0, x]) if case == 'grad_of_constant' else ex.call(G['grad_list'], [v0, [x]])
+        ob.prove('is_list', isinstance(g, list) and len(g) == d)
+        if isinstance(g, list) and len(g) == d:
+            for j, (gt, ct) in enumerate(zip(g, cores)):
+                ok = isinstance(gt, STensor)
+                ob.prove('entry%d_is_tensor' % j, ok)
+                if ok:
+                    all_eq(ob, 'entry%d_shape' % j, gt.shape, ct.shape)
+                    if gt._val is not None and len(gt.shape) == len(ct.shape):
+                        ob.prove_eq('entry%d_is_zero' % j, gt.at(H.fresh_axis_index(ex, gt)), Term.zero())
+                    else:
+                        ob.fail('entry%d_is_zero' % j, 'value', 'gradient of a constant is not a zero tensor')
+        return
     if case in ('grad_twice', 'grad_list_twice'):
         # history: two gradients of two different values w.r.t. the same watched tensor.  The second call returns the derivative of
         # the SECOND value (torch accumulates into .grad unless it is cleared), and the list returned first keeps its value.
